@@ -155,7 +155,16 @@ pub fn decode_target(t: u8, bytes: &[u8]) -> Result<Outcome, String> {
                             };
                             let again: Deserializable<Msg> = serde_amqp::from_slice(&b2).map_err(|e| format!("decoded message does not decode again: {e}; {m:?} re-encoded={}", hex(&b2)))?;
                             if again.0 != m {
-                                if matches!(m.body, Body::Empty) && SKIP_EMPTY_BODY_GLOBAL.load(std::sync::atomic::Ordering::Relaxed) {
+                                // KF-message-empty-body: a body without any section (Empty, or a batch of zero data /
+                                // sequence sections) does not survive re-encoding
+                                let no_section = match &m.body {
+                                    Body::Empty => true,
+                                    Body::Data(v) => v.is_empty(),
+                                    Body::Sequence(v) => v.is_empty(),
+                                    _ => false,
+                                };
+                                if no_section && SKIP_EMPTY_BODY_GLOBAL.load(std::sync::atomic::Ordering::Relaxed) {
+                                    SKIPPED_KNOWN.fetch_add(1, std::sync::atomic::Ordering::Relaxed);
                                     return Ok(());
                                 }
                                 return Err(format!("decode(encode(m)) != m: {m:?} vs {:?}", again.0));
